@@ -22,6 +22,7 @@ from ..flow import CFG
 from ..hydro import HY, TM, fn, hydro_extractor, n, th
 from ..nf import with_closure_temporaries, Ctx, eqx, has, match
 from ..terms import Extractor, ITE, is_zero
+from .c06 import written_out
 
 LEVEL = "other"
 SIMPSON = sp.Function("simpson")
@@ -349,7 +350,9 @@ def r03_45(chk: Check):
     ok = eqx(kwarg(ivp[0], "fun", 0), "self.shockDE", co) and start is not None and y0 is not None
     chk.ob("R03.4", fo.where(), "solveHydroShock integrates self.shockDE from v = mu(vw, v+) downwards with those data", ok, key="ivp|solveHydroShock")
     # --- efficiencyFactor
-    fe = S.func(f"{HY}.efficiencyFactor")
+    # (both efficiency factors are read in their written-out form: a loop over the two waves is written out case by case, result slots and
+    # re-used locals become one local per wave)
+    fe = written_out(S, S.func(f"{HY}.efficiencyFactor"))
     chk.touch(fe.name)
     ge = CFG(fe.node)
     ce = Ctx(S, fe)
@@ -412,7 +415,7 @@ def r03_45(chk: Check):
     chk.ob("R03.5", fe.where(), "kappa is the sum of the two contributions", len(found) == 2 and sp.simplify(full.value - found[0] - found[1]) == 0, str(full.value)[:100],
            key="kappa-sum")
     # template sibling
-    ft = S.func(f"{TM}.efficiencyFactor")
+    ft = written_out(S, S.func(f"{TM}.efficiencyFactor"))
     chk.touch(ft.name)
     ct = Ctx(S, ft)
     ext = hydro_extractor(S)
